@@ -36,6 +36,8 @@ fn main() {
         ["table", "kmer", ..] => tables::kmer(arg(&a, 2), arg(&a, 3), arg(&a, 4)),
         ["table", "minimiser", ..] => tables::minimiser(arg(&a, 2), arg(&a, 3), arg(&a, 4), arg(&a, 5), &a[6], false),
         ["table", "kmermin", ..] => tables::minimiser(arg(&a, 2), arg(&a, 3), arg(&a, 4), arg(&a, 5), &a[6], true),
+        ["trace", "minsame", ..] => traces::min_same(arg(&a, 2), arg(&a, 3)),
+        ["trace", "minwide", ..] => traces::min_wide(arg(&a, 2)),
         ["trace", "minmid", ..] => traces::min_mid(arg(&a, 2), a[3] == "1"),
         ["trace", "gaps", ..] => traces::gaps(arg(&a, 2), &a[3]),
         ["trace", "iterapi", ..] => traces::iterapi(arg(&a, 2), arg(&a, 3)),
